@@ -1,6 +1,8 @@
 package metric
 
 import (
+	"sync"
+	"time"
 	"context"
 	"errors"
 
@@ -51,4 +53,81 @@ func HarnessC15MetricAfterShutdown() {
 	c.Add(context.Background(), 1) // harmless
 	ferr := mp.ForceFlush(context.Background())
 	vndAssert(ferr == nil || errors.Is(ferr, ErrReaderShutdown), "flush-after-shutdown-harmless")
+}
+
+// exporter model for the periodic reader
+type c15Exporter struct {
+	mu        sync.Mutex
+	shutdowns int
+	exports   int
+	late      bool // an export began after a Shutdown of the provider had returned
+	stopped   bool
+}
+
+func (e *c15Exporter) Temporality(InstrumentKind) metricdata.Temporality { return metricdata.CumulativeTemporality }
+func (e *c15Exporter) Aggregation(k InstrumentKind) Aggregation         { return DefaultAggregationSelector(k) }
+func (e *c15Exporter) ForceFlush(context.Context) error                 { return nil }
+func (e *c15Exporter) Export(context.Context, *metricdata.ResourceMetrics) error {
+	e.mu.Lock()
+	e.exports++
+	if e.stopped {
+		e.late = true
+	}
+	e.mu.Unlock()
+	return nil
+}
+func (e *c15Exporter) Shutdown(context.Context) error {
+	e.mu.Lock()
+	e.shutdowns++
+	e.mu.Unlock()
+	return nil
+}
+
+// C15.periodic: a MeterProvider with a periodic reader shut down from two
+// goroutines (the ticker may fire at any point): the exporter is shut down
+// exactly once, one call returns nil and the other the documented error,
+// nothing is exported afterwards and later calls are harmless
+func HarnessC15PeriodicOnce() {
+	e := &c15Exporter{}
+	r := NewPeriodicReader(e, WithInterval(time.Second), WithTimeout(time.Hour))
+	mp := c15MeterProvider(r)
+	c, err := mp.Meter("m").Int64Counter("c")
+	vndAssert(err == nil, "instrument-created")
+	c.Add(context.Background(), 1)
+	var errs [2]error
+	var wg sync.WaitGroup
+	wg.Add(2)
+	for i := 0; i < 2; i++ {
+		go func(i int) {
+			defer wg.Done()
+			errs[i] = mp.Shutdown(context.Background())
+		}(i)
+	}
+	wg.Wait()
+	e.mu.Lock()
+	e.stopped = true
+	sd := e.shutdowns
+	e.mu.Unlock()
+	vndReach("joined")
+	vndAssert(sd == 1, "exporter-shut-down-exactly-once")
+	nils := 0
+	for _, er := range errs {
+		if er == nil {
+			nils++
+		} else {
+			vndAssert(errors.Is(er, ErrReaderShutdown), "repeated-shutdown-returns-the-documented-error")
+		}
+	}
+	vndAssert(nils == 1, "exactly-one-shutdown-call-succeeds")
+	// afterwards
+	c.Add(context.Background(), 1)
+	vndAssert(errors.Is(mp.ForceFlush(context.Background()), ErrReaderShutdown), "flush-after-shutdown-returns-the-documented-error")
+	var rm metricdata.ResourceMetrics
+	vndAssert(errors.Is(r.Collect(context.Background(), &rm), ErrReaderShutdown), "collect-after-shutdown-returns-documented-error")
+	vndAssert(errors.Is(mp.Shutdown(context.Background()), ErrReaderShutdown), "second-shutdown-returns-documented-error")
+	e.mu.Lock()
+	late, sd2 := e.late, e.shutdowns
+	e.mu.Unlock()
+	vndAssert(!late, "nothing-exported-after-shutdown-returned")
+	vndAssert(sd2 == 1, "exporter-shut-down-exactly-once")
 }
